@@ -68,8 +68,9 @@ Fixpoint fct_loop (fuel tries seg : nat) (reqs : list TT)
   | O => LoopEnd tries reqs
   | S f =>
     let tries := S tries in
-    if ltb N (sub N t_final t_prev) (norm_t_tol o) then
-      (* t_guess = t_final; _, state = self._integrator.get_state() *)
+    if leb N t_final (add N t_prev (norm_t_tol o)) then
+      (* if t_final <= t_prev + norm_t_tol:
+           t_guess = t_final; _, state = self._integrator.get_state() *)
       Broke t_final cur tries reqs
     else
       let g := clamp_guess t_prev (secant t_prev t_final norm_old norm target) in
@@ -83,17 +84,9 @@ Fixpoint fct_loop (fuel tries seg : nat) (reqs : list TT)
         fct_loop f tries seg (g :: reqs) s g t_final n2 norm target
   end.
 
-(* after the loop: `if tries >= norm_steps: raise RuntimeError` *)
+(* `while ... else: raise RuntimeError`: the error is raised only when the
+   loop ends without `break` *)
 Definition find_collapse (seg : nat) (cur t_prev t_final norm_old norm target : TT)
-  : option (TT * TT) * list TT :=
-  match fct_loop (norm_steps o) 0 seg [] cur t_prev t_final norm_old norm target with
-  | Broke g s tries reqs =>
-      (if Nat.leb (norm_steps o) tries then None else Some (g, s), reqs)
-  | LoopEnd _ reqs => (None, reqs)
-  end.
-
-(* the repair proposed in the report: `while ... else: raise` *)
-Definition find_collapse_fixed (seg : nat) (cur t_prev t_final norm_old norm target : TT)
   : option (TT * TT) * list TT :=
   match fct_loop (norm_steps o) 0 seg [] cur t_prev t_final norm_old norm target with
   | Broke g s _ reqs => (Some (g, s), reqs)
